@@ -38,6 +38,11 @@ claim("C10",
   "Root independence from operation order, last-write lookup and iteration order are invariants of a recursive structure over operation histories: NOT decided. Keccak and the node encoding are trusted." + TB,
   STATIC + "composite-literal/field-store coverage (K4), same-path ordering (K2), guard dominance with provenance (K1), sibling agreement (K5), who-may-write (K3)")
 
+claim("C14",
+  "Structural necessary conditions: CRC and size bound dominate the payload decode in WALDecoder.Decode (with the checksum, length and payload buffers kept apart by allocation-site identity); every error result of Decode is classified (EOF pass-through = end of log, anything derived from the bytes = DataCorruptionError, plain error only for non-EOF I/O failure); writer/reader frame agreement (CRC table object, byte order, offsets, length = len(payload)); SearchForEndHeight finds only an EndHeightMessage of the requested height, newest file first, and skips only classified corruption when asked; catchupReplay replays only after the previous marker was found and none exists for the height; the marker is written with WriteSync between CommitBlock and ApplyBlock and write/flush errors are fatal. A genuine error-classification defect was repaired (46e420a).",
+  "Per-offset truncation behaviour, CRC collisions and rotation timing are value/timing properties: NOT decided. GroupReader.Read's fill-or-error contract (bufio) is trusted." + TB,
+  STATIC + "guard dominance (K1), error-class discipline on every return (K8), writer/reader sibling agreement (K5), path ordering (K2)")
+
 for _p in ["C%02d" % i for i in range(1, 21)]:
     if _p not in CLAIMED:
         na(_p, PENDING)
